@@ -80,8 +80,80 @@ size_t stepsFor(const Ctx& c)
     return c.thorough() ? 1500 : 500;
 }
 
+// One round in sixteen: every thread keeps tens of megabytes of unfinished reassemblies in its own decoder at the same
+// moment (a barrier between "start all messages" and "finish all messages" makes the peaks coincide) - several hundred
+// megabytes in the process, far less in any single decoder. Each decoder owes the result it gives alone.
+uint64_t heavyOne(int t, size_t messages, Barrier* mid)
+{
+    ASAM::CMP::Decoder dec;
+    wire::Bytes seg(60000);
+    for (size_t i = 0; i < seg.size(); ++i)
+        seg[i] = static_cast<uint8_t>(i * 31 + static_cast<size_t>(t));
+    uint64_t digest = 0x19;
+    size_t delivered = 0;
+    for (int phase = 0; phase < 2; ++phase)
+    {
+        for (size_t i = 0; i < messages; ++i)
+        {
+            const uint16_t dev = static_cast<uint16_t>(1 + i / 200);
+            const uint8_t stream = static_cast<uint8_t>(i % 200);
+            wire::Bytes f = wire::frameHeader(1, dev, wire::MT_DATA, stream, static_cast<uint16_t>(100 + phase));
+            if (phase == 0)
+                wire::appendMessage(f, i, 7, wire::SEG_FIRST, 0x42, seg);
+            else
+                wire::appendMessage(f, i, 7, wire::SEG_LAST, 0x42, wire::Bytes(8, 0xEE));
+            auto got = dec.decode(f.data(), f.size());
+            for (auto& p : got)
+                if (p)
+                {
+                    ++delivered;
+                    digest = mix64(digest, p->getPayload().getLength() * 131 + p->getDeviceId() * 7 + p->getStreamId());
+                }
+        }
+        if (phase == 0 && mid)
+            mid->wait();
+    }
+    return mix64(digest, delivered);
+}
+
+void heavyRound(Ctx& c, long idx)
+{
+    const int T = threadsFor(c);
+    const size_t messages = 700;
+    c.note("heavy round " + std::to_string(idx) + " threads=" + std::to_string(T));
+    std::vector<uint64_t> got(static_cast<size_t>(T));
+    Barrier start(T), mid(T);
+    std::vector<std::thread> th;
+    for (int t = 0; t < T; ++t)
+        th.emplace_back([&, t] {
+            start.wait();
+            got[static_cast<size_t>(t)] = heavyOne(t, messages, &mid);
+        });
+    for (auto& x : th)
+        x.join();
+    for (int t = 0; t < T; ++t)
+    {
+        ++c.evaluations;
+        uint64_t alone = heavyOne(t, messages, nullptr);
+        if (alone != got[static_cast<size_t>(t)])
+        {
+            char buf[240];
+            snprintf(buf, sizeof buf, "heavy round %ld thread %d: a decoder holding %zu unfinished 60000-byte messages gives digest %016llx next to %d other decoders doing the same, %016llx alone",
+                     idx, t, messages, (unsigned long long) got[static_cast<size_t>(t)], T - 1, (unsigned long long) alone);
+            c.violation("C19:result-differs-from-single-threaded-run", buf, buf);
+        }
+        c.sig(mix64(0x4EA, static_cast<uint64_t>(idx) * 64 + static_cast<uint64_t>(t)));
+    }
+    c.count("rounds");
+    c.count("rounds_with_overlapping_threads");
+    c.count("heavy_rounds_with_hundreds_of_megabytes_in_flight");
+    c.count("thread_workloads", static_cast<uint64_t>(T));
+}
+
 void roundCase(Ctx& c, long idx)
 {
+    if (idx % 16 == 7 && !getenv("VF_ROUNDS"))
+        return heavyRound(c, idx);
     const int T = threadsFor(c);
     const size_t steps = stepsFor(c);
     // every other round concentrates all threads on one code path (encode+decode, decode, builders, TECMP, status, long reassembly)
